@@ -38,11 +38,15 @@ var targets = []string{
 	"Cache.removeItem", "Cache.evictOldest", "Cache.Set", "Cache.Get", "Cache.Delete", "Cache.Cleanup",
 	"TokenCache.Set", "TokenCache.Get", "TokenCache.Delete",
 	"discoverProviderMetadata",
+	"MetadataCache.isCacheValid", "MetadataCache.Cleanup", "MetadataCache.GetMetadata",
 }
 
 // functions whose effects are on the outside world and the clock (discovery): `time.Now()`, `time.Sleep` and the HTTP fetch are
 // operations of `Go.DOps` on a state `w` (the virtual clock and the provider's scripted answers live there)
-var clocked = map[string]bool{"discoverProviderMetadata": true}
+var clocked = map[string]bool{"discoverProviderMetadata": true, "MetadataCache.GetMetadata": true}
+
+// methods of *MetadataCache that assign its fields: they take the struct and return the new one next to their result
+var recvMutMethods = map[string]bool{"MetadataCache.GetMetadata": true, "MetadataCache.Cleanup": true}
 
 // calls that read or change the state shared between requests (token cache, revocation list, limiter): the translated function
 // takes that state as its last argument `w` and returns it next to its result; the operations are the fields of `Go.VOps`
@@ -97,6 +101,7 @@ type fn struct {
 	decl       *ast.FuncDecl
 	needsNow   bool
 	recvMut    bool // method of a struct it changes in place (cache.go): takes the struct and returns the new one next to its result
+	recvType   string
 	stateful   bool // reads or changes the shared state: takes `ops` and `w`, returns the new state next to its result
 	fuel       bool // contains a general `for` loop: takes a fuel argument, result wrapped in Option (none = fuel exhausted)
 	calls      []string
@@ -178,6 +183,8 @@ func leanType(t string) string {
 		return "Go.Pem"
 	case "metap":
 		return "(Option Go.Meta)"
+	case "mcache":
+		return "Go.MetaCache"
 	case "httpc":
 		return "Go.HTTPClient"
 	case "logger":
@@ -250,6 +257,8 @@ func goType(e ast.Expr) string {
 				return "tcache"
 			case "ProviderMetadata":
 				return "metap"
+			case "MetadataCache":
+				return "mcache"
 			case "Logger":
 				return "logger"
 			}
@@ -523,7 +532,7 @@ func (c *ctx) binary(x *ast.BinaryExpr) (string, string) {
 			}
 		}
 		s, t := c.expr(x.X)
-		if t == "error" || t == "jwkp" || t == "elemp" {
+		if t == "error" || t == "jwkp" || t == "elemp" || t == "metap" {
 			if x.Op == token.NEQ {
 				return s + ".isSome", "bool"
 			}
@@ -605,6 +614,10 @@ func (c *ctx) selector(x *ast.SelectorExpr) (string, string) {
 		return r + ".ExpiresAt", "time"
 	case "lru.key":
 		return "(Go.lruKey " + r + ")", "str"
+	case "mcache.metadata":
+		return r + ".metadata", "metap"
+	case "mcache.expiresAt":
+		return r + ".expiresAt", "time"
 	}
 	fail(x, "unsupported field %s of a %s", x.Sel.Name, t)
 	return "", ""
@@ -894,7 +907,7 @@ func (c *ctx) call(x *ast.CallExpr) (string, string) {
 				as, _ := c.args(x)
 				return "(" + r + "." + sel.Sel.Name + " " + strings.Join(as, " ") + ")", rts[0]
 			}
-			if g := methodOf(t, sel.Sel.Name); g != nil && (t == "inst" || t == "jwt") {
+			if g := methodOf(t, sel.Sel.Name); g != nil && (t == "inst" || t == "jwt" || t == "mcache" && !g.recvMut) {
 				return c.callTranslated(g, x, r)
 			}
 			fail(x, "unsupported method %s on a %s", sel.Sel.Name, t)
@@ -1060,8 +1073,13 @@ func (c *ctx) callTranslated(g *fn, x *ast.CallExpr, recv string) (string, strin
 	}
 	parts := []string{leanName(g.key)}
 	if g.needsNow {
-		c.f.needsNow = true
-		parts = append(parts, "now")
+		if clocked[c.f.key] {
+			c.f.stateful = true
+			parts = append(parts, "(ops.clock w)")
+		} else {
+			c.f.needsNow = true
+			parts = append(parts, "now")
+		}
 	}
 	if recv != "" {
 		parts = append(parts, recv)
@@ -1085,7 +1103,7 @@ func leanName(key string) string { return strings.Replace(key, ".", "_", 1) }
 
 // methodOf finds the translated method `name` of the Go type behind a type tag
 func methodOf(tag, name string) *fn {
-	goT := map[string]string{"inst": "TraefikOidc", "jwt": "JWT", "cache": "Cache", "tcache": "TokenCache"}[tag]
+	goT := map[string]string{"inst": "TraefikOidc", "jwt": "JWT", "cache": "Cache", "tcache": "TokenCache", "mcache": "MetadataCache"}[tag]
 	if goT == "" {
 		return nil
 	}
@@ -1162,6 +1180,21 @@ func (c *ctx) assign(s *ast.AssignStmt, k func() string) string {
 	if s.Tok != token.DEFINE && s.Tok != token.ASSIGN {
 		fail(s, "unsupported assignment operator")
 	}
+	if c.f.recvMut && len(s.Lhs) == 1 && len(s.Rhs) == 1 && s.Tok == token.ASSIGN {
+		if sel, ok := s.Lhs[0].(*ast.SelectorExpr); ok && src(sel.X) == c.recv {
+			if _, rt, _ := c.lookup(c.recv); rt == "mcache" && (sel.Sel.Name == "metadata" || sel.Sel.Name == "expiresAt") {
+				v, vt := c.expr(s.Rhs[0])
+				if vt == "nil" {
+					if sel.Sel.Name != "metadata" {
+						fail(s, "nil assigned to %s", src(sel))
+					}
+					v = "(none : Option Go.Meta)"
+				}
+				hp := c.takePre()
+				return hp + fmt.Sprintf("let %s := { %s with %s := %s }\n%s", c.recv, c.recv, sel.Sel.Name, v, k())
+			}
+		}
+	}
 	if c.f.recvMut && len(s.Lhs) == 1 && len(s.Rhs) == 1 {
 		r := c.recv
 		if ix, ok := s.Lhs[0].(*ast.IndexExpr); ok && s.Tok == token.ASSIGN { // c.items[key] = v, c.elems[key] = elem
@@ -1218,6 +1251,18 @@ func (c *ctx) assign(s *ast.AssignStmt, k func() string) string {
 						a, b := bind(s.Lhs[0], g.retTypes[0]), bind(s.Lhs[1], g.retTypes[1])
 						return fmt.Sprintf("let ((%s, %s), %s) := (%s)\n%s", a, b, c.recv, strings.Join(parts, " "), k())
 					}
+				}
+			}
+			if id, ok := r.Fun.(*ast.Ident); ok {
+				if g := byName[id.Name]; g != nil && g.stateful && g.fuel && len(g.retTypes) == 2 && clocked[c.f.key] && clocked[g.key] {
+					// a translated function with a general loop and effects on the state: its result is an Option (fuel), the state
+					// comes back next to its results
+					c.f.calls = append(c.f.calls, g.key)
+					c.f.stateful, c.f.fuel = true, true
+					as, _ := c.args(r)
+					a, b := bind(s.Lhs[0], g.retTypes[0]), bind(s.Lhs[1], g.retTypes[1])
+					hp := c.takePre()
+					return hp + fmt.Sprintf("match (%s fuel ops %s w) with\n| none => none\n| some ((%s, %s), w) =>\n%s", leanName(g.key), strings.Join(as, " "), a, b, indent(k()))
 				}
 			}
 			if ce, ok := clockedExternals[fun]; ok && clocked[c.f.key] && len(ce.res) == 2 {
@@ -1323,19 +1368,21 @@ func (c *ctx) assign(s *ast.AssignStmt, k func() string) string {
 
 // valueWrap adds what the function hands back besides its results: the shared state `w`, or the struct a method changed in place
 func (c *ctx) valueWrap(e string) string {
-	extra := ""
+	if c.f.recvMut {
+		if e == "()" {
+			e = c.recv
+		} else {
+			e = "(" + e + ", " + c.recv + ")"
+		}
+	}
 	if c.f.stateful {
-		extra = "w"
-	} else if c.f.recvMut {
-		extra = c.recv
+		if e == "()" {
+			e = "w"
+		} else {
+			e = "(" + e + ", w)"
+		}
 	}
-	if extra == "" {
-		return e
-	}
-	if e == "()" {
-		return extra
-	}
-	return "(" + e + ", " + extra + ")"
+	return e
 }
 
 func (c *ctx) ret(s *ast.ReturnStmt) string {
@@ -1746,9 +1793,10 @@ func (f *fn) translate() (code string, err string) {
 		t := goType(r.Type)
 		c.recv = c.declare(r.Names[0].Name, t)
 		params = append(params, fmt.Sprintf("(%s : %s)", c.recv, leanType(t)))
-		if t == "cache" || t == "tcache" {
+		if t == "cache" || t == "tcache" || recvMutMethods[f.key] {
 			f.recvMut = true
 		}
+		f.recvType = leanType(t)
 	}
 	f.paramTypes = nil
 	for _, p := range f.decl.Type.Params.List {
@@ -1778,6 +1826,16 @@ func (f *fn) translate() (code string, err string) {
 	if f.needsNow {
 		params = append([]string{"(now : Go.Time)"}, params...)
 	}
+	if f.recvMut {
+		if len(rts) == 0 {
+			rt = f.recvType
+		} else {
+			if len(rts) > 1 {
+				rt = "(" + rt + ")"
+			}
+			rt = rt + " × " + f.recvType
+		}
+	}
 	if f.stateful {
 		opsT := "Go.VOps"
 		if clocked[f.key] {
@@ -1785,23 +1843,13 @@ func (f *fn) translate() (code string, err string) {
 		}
 		params = append([]string{"{σ : Type} (ops : " + opsT + " σ)"}, params...)
 		params = append(params, "(w : σ)")
-		if len(rts) == 0 {
+		if len(rts) == 0 && !f.recvMut {
 			rt = "σ"
 		} else {
-			if len(rts) > 1 {
+			if len(rts) > 1 || f.recvMut && len(rts) > 0 {
 				rt = "(" + rt + ")"
 			}
 			rt = rt + " × σ"
-		}
-	}
-	if f.recvMut {
-		if len(rts) == 0 {
-			rt = "Go.CacheS"
-		} else {
-			if len(rts) > 1 {
-				rt = "(" + rt + ")"
-			}
-			rt = rt + " × Go.CacheS"
 		}
 	}
 	if f.fuel {
